@@ -10,7 +10,7 @@
   i.e. `C01_net_of_gap` with every structural hypothesis discharged by the theorems about `project_equations()`:
   `hdim` ← `C01_pe_dimsN`, `RowsOK` ← `C01_pe_rowsOK`, and — new — `hreg : Env.RegListOK` ← `C01_pe_minx`
   (`C01_pe_regListOK`; the flag "`hreg` follows in one line but is not discharged" of the audit).
-  `C01_net_envelope_of_project_equations'` is the envelope façade theorem without `hreg`.
+  `C01_net_envelope_of_project_equations_noreg` is the envelope façade theorem without `hreg`.
 
   What the rows of `np` ARE (the Jacobian at the approximate coordinates; `np.rhs` the misclosures) is
   `C05_pe_design_matrix_is_jacobian` (`Props/C05ProjectEquations.lean`), about the same function on the carrier ℝ with
@@ -51,7 +51,7 @@ theorem C01_pe_regListOK (t : TrigFns K) (net : PE.Net K) (np : NetProblem K) (u
   exact ⟨hnd, hr⟩
 
 /-- **`C01_net_envelope` with NO structural hypothesis left** (`hdim`, `RowsOK`, `hreg` all from `project_equations()`) -/
-theorem C01_net_envelope_of_project_equations' (hsq : IsSqrt (SqrtFn.sq : K → K)) (t : TrigFns K)
+theorem C01_net_envelope_of_project_equations_noreg (hsq : IsSqrt (SqrtFn.sq : K → K)) (t : TrigFns K)
     (net : PE.Net K) (np : NetProblem K) (u : Unknowns K)
     (hpe : @projectEquations K (trigOfField t) net = .ok (np, u)) (hna : ∀ ob ∈ revisedObs u.net, NoAlias ob)
     (hm0 : np.m0 ≠ 0)
